@@ -149,6 +149,15 @@ def open_terms(iv, T, C):
     for sub in ast.walk(e):
       if isinstance(sub, ast.Name) and sub.id not in allowed and sub.id not in bound and sub.id not in out and id(sub) not in receivers and not sub.id[:1].isupper():
         out.append(sub.id)
+    # a group given as a field of a record (candidate.geos): another field of the same record (candidate.share) is a
+    # value whose relation to the group is not known here
+    for t in (T, C):
+      if '.' in t and t.split('.')[0].isidentifier():
+        root = t.split('.')[0]
+        for sub in ast.walk(e):
+          if isinstance(sub, ast.Attribute) and isinstance(sub.value, ast.Name) and sub.value.id == root and norm(sub) != t and not t.startswith(norm(sub) + '.') \
+              and root not in _KNOWN_ROOTS and norm(sub) not in out:
+            out.append(norm(sub))
   return out
 
 
@@ -1010,10 +1019,10 @@ def run_search(repo, rep, name, dwc):
                       f.loc(P_.push_call))
         result[kappa] = ('undecided', None)
         continue
-      rep.violation('R2/must-pass', f.qualname, '%s: no check of %s on (%s, %s)' % (name, kappa, T, C),
-                    '%s pushes designs without any check of %s on the pushed groups (%s, %s): designs violating the constraint are returned'
-                    % (name, kappa, T, C), f.loc(P_.push_call))
-      result[kappa] = None
+      v_ = rep.absent(f, 'R2/must-pass', f.qualname, '%s: no check of %s on (%s, %s)' % (name, kappa, T, C),
+                      '%s pushes designs without any check of %s on the pushed groups (%s, %s): designs violating the constraint are returned'
+                      % (name, kappa, T, C), f.loc(P_.push_call), subject='%s: %s' % (name, kappa))
+      result[kappa] = None if v_ is False else ('undecided', None)
   return result
 
 
